@@ -190,7 +190,8 @@ def check_C12(work, prop, tier, seed, t0):
     q = tier == "quick"
     drive = build_harness(work)
     model_runs = [pool_model(work, 1)]
-    kinds = "uint8:fan1,alpha/string:fan1x,int8:fan1,alpha/bytes:fan2"
+    # short fill/drain cycles so that nodes of every class are released by one tree and picked up by another many times
+    kinds = "uint8:fan64,alpha/string:fanb,int8:fan64,alpha/bytes:fan64,uint16:fanb" if q else "uint8:fan1,alpha/string:fan1x,int8:fan64,alpha/bytes:fanb,uint8:fan64"
     ni = []
     for ku in kinds.split(","):
         k, u = ku.split(":")
@@ -210,8 +211,9 @@ def check_C12(work, prop, tier, seed, t0):
     with open(hist, "w") as f:
         f.writelines(hs)
     model_runs.append({"stage": "sim:ArtMulti", "states": r.states, "transitions": r.transitions, "interleavings": len(hs), "wall_s": round(r.wall, 1)})
+    kinds2 = "uint8:fan64,alpha/string:fan64,int8:fanb,alpha/bytes:fan64"
     jobs = [Job("multi:tlc-interleavings", "plain", ["multi", "-kinds", kinds, "-in", hist, "-seed", str(seed)]),
-            Job("multi:ramps", "plain", ["multi", "-kinds", kinds, "-seed", str(seed), "-n", str(2 if q else 8), "-len", str(1500 if q else 4000)]),
+            Job("multi:ramps", "plain", ["multi", "-kinds", kinds2, "-seed", str(seed), "-n", str(2 if q else 8), "-len", str(1500 if q else 4000)]),
             Job("multi:mixed", "plain", ["multi", "-kinds", "collation/string/und:text,uint16:random,alpha/string:long,float64:random,compound/u8+u16:tuple",
                                           "-seed", str(seed + 1), "-n", str(2 if q else 8), "-len", str(600 if q else 2000), "-batevery", "10"])]
     return env_check(work, prop, tier, seed, t0, jobs, TREE_INVS + ["Inv_C12", "Inv_C15"], model_runs,
@@ -243,7 +245,7 @@ def check_C16(work, prop, tier, seed, t0):
     for procs in ([2, 4, 16] if not q else [4, 16]):
         for s in range(1 if q else 3):
             jobs.append(Job("conc:procs=%d:seed=%d" % (procs, seed + s), "race",
-                            ["conc", "-seed", str(seed + s), "-g", str(8 if q else 16), "-len", str(300 if q else 900), "-procs", str(procs)],
+                            ["conc", "-seed", str(seed + s), "-g", str(12 if q else 24), "-len", str(600 if q else 1500), "-procs", str(procs)],
                             env={"GORACE": "halt_on_error=0 exitcode=66"}, pattern=".*.ndjson"))
     return env_check(work, prop, tier, seed, t0, jobs, ["Inv_C01", "Inv_C02", "Inv_C03", "Inv_C04", "Inv_C05", "Inv_C06", "Inv_C11", "Inv_C14"], model_runs,
                      "race-detector build; G goroutines with heavy grow/shrink churn on private trees of mixed kinds (shared node pools busy), then G "
